@@ -62,7 +62,13 @@ def amplification_type_parsing(cx):
     fn.ob('TABLE', 'amplification type of channel n is read from $PnE', ok, loop,
           detail='' if ok else 'keys read in the loop: %s' % [k for k, _ in keys], key='$PnE')
     rng = sym.norm(loop.iter)
-    okr = rng == sym.norm('range(1, num_channels + 1)')
+    nch = None
+    pat = sym.parse_pattern("NCH = int(F.text['$PAR'])")
+    for a in fn.stmts(ast.Assign):
+        b = sym.unify(pat, sym.stmt_nf(a), {}, {'NCH', 'F'})
+        if b is not None:
+            nch = b['NCH'][1]
+    okr = nch is not None and rng == sym.norm('range(1, %s + 1)' % nch)
     fn.ob('TABLE', 'channel loop covers parameters 1..$PAR', okr, loop, detail='' if okr else sym.show(rng), key='$PnE-range')
     conv = [sym.norm(a.value) for a in fn.stmts(ast.Assign, loop) if isinstance(a.targets[0], ast.Name) and a.targets[0].id == X]
     want = [sym.norm("%s.split(',')" % X), sym.norm('[float(q) for q in %s]' % X, keep_casts=True), sym.norm('tuple(%s)' % X)]
